@@ -122,10 +122,10 @@ End NL.
 
 (* the whole operation, for a sub-directory of the tree *)
 Theorem verification_walks_into_no_loop (L : hashlib) decompress pgp_verify w l path pol lm l' b log :
-  wf_world w -> no_trailing_slash (pjoin rootdir path) ->
+  wf_world w -> no_trailing_slash (walk_top path) ->
   assert_directory_verifies L decompress pgp_verify w l path pol lm = Ok (l', b, log) ->
   exists ed, get_file_entry_dict L decompress pgp_verify w l path None true = Ok (l', ed) /\
-    forall dp rel anc, reachc w ed (pjoin rootdir path) path [] dp rel anc ->
+    forall dp rel anc, reachc w ed (walk_top path) path [] dp rel anc ->
       forall st, p_stat w dp = Ok st -> ~ In (st_dev st, st_ino st) anc.
 Proof.
   intros Hw Hp. unfold assert_directory_verifies.
